@@ -9,6 +9,7 @@ CONSTANTS
   EngSensors <- AllS
   Policy <- PolGreedy
   NSteps = 2
+  SpanSteps = 2
   Dt = 1
   OutDt = 1
   Events <- NoEvents
